@@ -53,14 +53,21 @@ fn ulp32(x: f32) -> f64 {
     (b as f64) - (a as f64)
 }
 
+/// pitch class a note number stands for.  What numbers above 11 mean is C20's business (not decided by this
+/// technique), so the scale model takes the crate's own conversion as given instead of assuming "acts as 11";
+/// a conversion that leaves 0..=11 is folded so that the model stays well-formed
+fn class_of(n: u8) -> u16 {
+    let c: u8 = real!(Note::from(n).into());
+    (c % 12) as u16
+}
 fn apply_forbid(mask: u16, notes: &[u8]) -> u16 {
     let mut m = mask;
     for n in notes {
-        m &= !(1u16 << (*n).min(11));
+        m &= !(1u16 << class_of(*n));
     }
     if m == 0 {
         if let Some(l) = notes.last() {
-            m = 1u16 << (*l).min(11);
+            m = 1u16 << class_of(*l);
         }
     }
     m
@@ -68,7 +75,7 @@ fn apply_forbid(mask: u16, notes: &[u8]) -> u16 {
 fn apply_allow(mask: u16, notes: &[u8]) -> u16 {
     let mut m = mask;
     for n in notes {
-        m |= 1u16 << (*n).min(11);
+        m |= 1u16 << class_of(*n);
     }
     m
 }
@@ -161,7 +168,8 @@ fn convert_step(ex: &mut Exec, bits: u32, ctx: &mut Ctx) {
                 if mask >> (p % 12) & 1 == 1 {
                     let lo = p as f64 * SEMI - HYST;
                     let hi = p as f64 * SEMI + SEMI + HYST;
-                    let margin = 3e-6;
+                    // the statement gives no precision for the window edges; the same 10 microvolts that C08 grants for ties
+                    let margin = 1e-5;
                     if (v64 - lo).abs() < margin || (v64 - hi).abs() < margin {
                         ambiguous = true;
                     }
@@ -225,7 +233,7 @@ fn convert_step(ex: &mut Exec, bits: u32, ctx: &mut Ctx) {
         let mut band_now = None;
         if mask == 0xFFF && v.is_finite() && v64 > 0.04 && v64 < 9.96 {
             let nb = (v64 * 12.0).round();
-            if (v64 - nb * SEMI).abs() < HYST - 4e-6 {
+            if (v64 - nb * SEMI).abs() < HYST - 1.1e-5 {
                 band_now = Some(nb as i32);
             }
         }
@@ -381,7 +389,7 @@ impl Engine for QuantEngine {
                     ex.mask = apply_forbid(ex.mask, ns);
                     let mut tmp = before;
                     for n in ns {
-                        tmp &= !(1u16 << (*n).min(11));
+                        tmp &= !(1u16 << class_of(*n));
                     }
                     if tmp == 0 {
                         ctx.fault(F_FORBID_EVERYTHING);
